@@ -27,6 +27,7 @@ from octave_mcp.core.ast_nodes import (
     InlineMap,
     ListValue,
     LiteralZoneValue,
+    Section,
 )
 from octave_mcp.core.gbnf_compiler import GBNFCompiler, compile_gbnf_from_meta
 from octave_mcp.core.parser import parse
@@ -56,7 +57,7 @@ def _ast_to_dict(doc: Document) -> dict[str, Any]:
     for section in doc.sections:
         if isinstance(section, Assignment):
             result[section.key] = _convert_value(section.value)
-        elif isinstance(section, Block):
+        elif isinstance(section, Block | Section):  # a section marker carries children like a block
             result[section.key] = _convert_block(section)
 
     return result
@@ -110,7 +111,7 @@ def _convert_block(block: Block) -> dict[str, Any]:
     for child in block.children:
         if isinstance(child, Assignment):
             result[child.key] = _convert_value(child.value)
-        elif isinstance(child, Block):
+        elif isinstance(child, Block | Section):
             result[child.key] = _convert_block(child)
 
     return result
@@ -182,7 +183,7 @@ def _ast_to_markdown(doc: Document) -> str:
             # I3: Format values to avoid exposing Python internals
             lines.append(f"**{section.key}**: {_format_markdown_value(section.value)}")
             lines.append("")
-        elif isinstance(section, Block):
+        elif isinstance(section, Block | Section):  # a section marker carries children like a block
             lines.append(f"## {section.key}")
             lines.append("")
             _block_to_markdown(section, lines, level=3)
@@ -202,7 +203,7 @@ def _block_to_markdown(block: Block, lines: list[str], level: int = 3) -> None:
         if isinstance(child, Assignment):
             # I3: Format values to avoid exposing Python internals
             lines.append(f"- **{child.key}**: {_format_markdown_value(child.value)}")
-        elif isinstance(child, Block):
+        elif isinstance(child, Block | Section):
             lines.append(f"{'#' * level} {child.key}")
             lines.append("")
             _block_to_markdown(child, lines, level + 1)
